@@ -8,6 +8,12 @@ def run(ctx, res):
     if not ctx.require_roles(res):
         return
     e3.apply(ctx, res, "C07", floor=structural.E3_FLOORS.get("C07"))
-    fn = getattr(structural, "C07".lower(), None)
-    if fn is not None:
-        fn(ctx, res)
+    structural.c07(ctx, res)
+    # an entry that is evicted before it is promoted / a duplicate evicted before it is replaced leaves a freed-slot node in the
+    # list: the ordering obligations of C03 are necessary conditions of list/table coherence too
+    d = e3.run(ctx)
+    for rec in d["records"]:
+        if rec["prop"] == "C03" and ("before-eviction" in rec["key"]):
+            res.count("C07 shared E3 obligations")
+            res.oblige(rec["desc"], rec["ok"], detail=rec.get("detail"), key="C07.E3:%s" % rec["key"], loc=rec["loc"],
+                       rule="E3 abstract interpretation", msg="not proved: %s" % rec["desc"])
